@@ -107,6 +107,11 @@ def traceC (h : History) (cancelAt : Option Nat) (f : Nat) (p : Pkg) (s : St) : 
 /-- without a cache and without cancellation -/
 def trace (h : History) (p : Pkg) : Option Nat := (traceC h none 0 p St.empty).1
 
+/-- `isPackageTraceable`: only packages of filesystem extractors with at least one location are traced; the
+others are skipped (`continue`) and keep no layer details -/
+def traceable (fromFilesystemExtractor : Bool) (nLocations : Nat) : Bool :=
+  fromFilesystemExtractor && decide (nLocations > 0)
+
 /-- `for _, pkg := range inventory.Packages`: cache and context are shared by all packages of all files -/
 def populate (img : Nat → History) (cancelAt : Option Nat) : List (Nat × Pkg) → St → List (Option Nat)
   | [], _ => []
